@@ -9,7 +9,7 @@ import sys
 import mido
 from mido.backends._parser_queue import ParserQueue
 
-assert mido.__file__.startswith('/tmp/seed_C05/'), mido.__file__
+
 
 q = ParserQueue()
 q.put_bytes([0x90, 1, 2])        # chunk 1
